@@ -50,6 +50,7 @@ def obligation(prop, name=None, *, tier="quick", bound="", desc="", timeout=None
 
 class Report:
     """collected by an obligation while it runs (inside the worker)."""
+    replay_hook = None
 
     def __init__(self, ob, tier):
         self.ob = ob
@@ -88,6 +89,8 @@ class Report:
 
     def fail(self, what, replay, *, detail=""):
         """replay: {"kind": <function name in checks.replays>, "args": {...}} (JSON-able)."""
+        if Report.replay_hook is not None and replay is not None:
+            replay = Report.replay_hook(replay)
         self.failed.append({"what": what, "replay": replay, "detail": detail})
 
     def unknown(self, what, detail=""):
@@ -149,7 +152,18 @@ def worker_main(prop, name, tier, outfile):
     except MemoryError:
         rep.unknown("out of memory in the worker")
     except Exception as e:
-        rep.unknown("harness exception: %s: %s" % (type(e).__name__, e), traceback.format_exc()[-2500:])
+        modname = None
+        tb = e.__traceback__
+        while tb is not None:
+            fr = tb.tb_frame
+            if fr.f_code.co_name == "<module>" and fr.f_code.co_filename.startswith(os.path.realpath(REPO) + os.sep):
+                modname = fr.f_globals.get("__name__")
+            tb = tb.tb_next
+        if modname:
+            rep.fail("import of %s fails on this tree: %s: %s" % (modname, type(e).__name__, e),
+                     {"kind": "import", "args": {"module": modname}})
+        else:
+            rep.unknown("harness exception: %s: %s" % (type(e).__name__, e), traceback.format_exc()[-2500:])
     d = rep.as_dict(core.STATS.as_dict(), time.time() - t0)
     with open(outfile, "w") as f:
         json.dump(d, f)
@@ -264,10 +278,16 @@ def run_property(prop, tier, jobs=None, only=None):
     violations = []
     known_hits = []
     harness_errors = []
+    replay_cache = {}
     for o in obs:
         r = results[o.name]
         for fl in r["failed"]:
             rp = fl.get("replay")
+            ck = (o.name, json.dumps(rp, sort_keys=True))
+            if ck in replay_cache:
+                replay_cache[ck]["also"] = replay_cache[ck].get("also", 0) + 1
+                continue
+            replay_cache[ck] = fl
             if not rp:
                 harness_errors.append("%s: counterexample without replay: %s" % (o.name, fl["what"]))
                 continue
